@@ -507,47 +507,49 @@ def o11(ctx, rep):
 
 # ---- W rules (C17): write discipline -----------------------------------------------------------
 
-# who may perform a mutating primitive on which file class (one line of reason each)
+# who may perform a mutating primitive on which file class.  Entries are MODULE (or function) path prefixes,
+# so that renaming or splitting a writer inside its module is not an alarm, while a writer that appears in
+# another layer is.  (When and in which order the writers run is the business of the O-rules.)
+# cls -> [(path prefix, allowed kinds or None = all, reason)]
 ALLOWED = {
-    "wal": {
-        "nomt::bitbox::writeout::write_wal": "the pre-meta WAL writeout (set_len 0, write, fsync)",
-        "nomt::bitbox::writeout::truncate_wal": "post-meta / recovery collapse of the WAL",
-        "nomt::bitbox::ht_file::create": "creation of an empty store",
-    },
-    "ht": {
-        "nomt::bitbox::writeout::write_ht": "post-meta writeout of the buffered hash-table pages",
-        "nomt::bitbox::recover": "redo of the WAL at open (gated by O7)",
-        "nomt::bitbox::ht_file::create": "creation of an empty store",
-        "nomt::bitbox::ht_file::resize_and_prealloc": "creation (called from ht_file::create only)",
-        "nomt::bitbox::ht_file::resize_and_zero_file": "creation (called from ht_file::create only)",
-    },
-    "meta": {
-        "nomt::store::meta::Meta::write": "the single atomic switch-over write",
-        "nomt::store::create": "creation of an empty store",
-    },
-    "lnbbn": {
-        "<nomt::beatree::ops::update::leaf_stage::NewLeafHandler as nomt::beatree::ops::update::leaf_updater::HandleNewLeaf>::handle_new_leaf": "new leaf to a freshly allocated page",
-        "<nomt::beatree::ops::update::branch_stage::NewBranchHandler as nomt::beatree::ops::update::branch_updater::HandleNewBranch>::handle_new_branch": "new branch node to a freshly allocated page",
-        "nomt::beatree::ops::overflow::chunk": "overflow pages to freshly allocated pages",
-        "nomt::beatree::writeout::submit_freelist_write": "copy-on-write free-list pages produced by SyncFinisher::finish",
-        "nomt::beatree::allocator::grow": "file extension (never shortens)",
-        "nomt::beatree::create": "creation of an empty store",
-    },
-    "seglog": {
-        "nomt::seglog::SegmentedLog::create_segment": "new segment file (create_new + append)",
-        "nomt::seglog::SegmentedLog::prune_oldest": "post-meta pruning",
-        "nomt::seglog::SegmentedLog::prune_recent": "post-meta pruning",
-        "nomt::seglog::SegmentedLog::remove_all_segments": "post-meta pruning (called from prune_*)",
-        "nomt::seglog::Recovery::remove_nonlive_segments": "open: segments outside the live range of the meta page",
-        "nomt::seglog::truncate_head_segment": "open / post-meta: cut the head segment to the live range",
-        "nomt::seglog::segment_rw::SegmentFileWriter::write_header": "append",
-        "nomt::seglog::segment_rw::SegmentFileWriter::write_payload": "append (set_len pads to alignment)",
-    },
-    "lock": {"nomt::store::flock::Flock::lock": "creates the .lock file"},
-    "dir": {"nomt::store::create": "create_dir_all"},
+    "wal": [
+        ("nomt::bitbox::writeout::", None, "WAL writeout (pre-meta) and WAL collapse (post-meta / recovery)"),
+        ("nomt::bitbox::ht_file::", None, "creation of an empty store"),
+    ],
+    "ht": [
+        ("nomt::bitbox::writeout::", None, "post-meta writeout of the buffered hash-table pages"),
+        ("nomt::bitbox::recover", None, "redo of the WAL at open (gated by O7)"),
+        ("nomt::bitbox::ht_file::", None, "creation / sizing of an empty store"),
+    ],
+    "meta": [
+        ("nomt::store::meta::", None, "the single atomic switch-over write"),
+        ("nomt::store::create", None, "creation of an empty store"),
+    ],
+    "lnbbn": [
+        ("nomt::beatree::ops::update::", None, "new leaves / branch nodes to freshly allocated pages (W2)"),
+        ("<nomt::beatree::ops::update::", None, "new leaves / branch nodes to freshly allocated pages (W2)"),
+        ("nomt::beatree::ops::overflow::", None, "overflow pages to freshly allocated pages (W2)"),
+        ("nomt::beatree::writeout::", None, "copy-on-write free-list pages produced by SyncFinisher::finish"),
+        ("nomt::beatree::allocator::", ("resize",), "file extension (never shortens)"),
+        ("nomt::beatree::create", None, "creation of an empty store"),
+    ],
+    "seglog": [
+        ("nomt::seglog::", None, "the segmented log owns its segment files (append, prune, recovery)"),
+    ],
+    "lock": [("nomt::store::flock::", ("open", "create"), "creates the .lock file; it is never written, truncated or unlinked")],
+    "dir": [("nomt::store::create", None, "create_dir_all")],
 }
 for _k in ("ln", "bbn"):
     ALLOWED[_k] = ALLOWED["lnbbn"]
+
+
+def w1_allowed(cls, fn, kind):
+    root = fn.split("::{closure")[0]
+    for (prefix, kinds, reason) in ALLOWED.get(cls, []):
+        if root.startswith(prefix) and (kinds is None or kind in kinds):
+            return reason
+    return None
+
 
 OO_BUILDERS = ("read", "write", "append", "truncate", "create", "create_new", "custom_flags", "mode")
 
@@ -592,12 +594,12 @@ def w1(ctx, rep):
         if cls == "?":
             rep.violation("W1", short(fn), "%s(?)" % e.kind, "a %s at %s acts on a file whose class cannot be determined (fail closed)" % (e.kind, e.site), site=e.site)
             continue
-        allowed = ALLOWED.get(cls, {})
+        reason = w1_allowed(cls, fn, e.kind)
         rep.check(
-            fn in allowed, "W1", short(fn), "%s(%s)" % (e.kind, cls),
-            "%s of the %s file at %s happens in %s, which is not one of the functions allowed to modify that file class (%s)" % (e.kind, cls, e.site, short(fn), ", ".join(short(a).split("::")[-1] for a in sorted(allowed))),
+            reason is not None, "W1", short(fn), "%s(%s)" % (e.kind, cls),
+            "%s of the %s file at %s happens in %s, outside the modules allowed to modify that file class (%s)" % (e.kind, cls, e.site, short(fn), ", ".join(p for (p, k, r) in ALLOWED.get(cls, []))),
             site=e.site,
-            detail="%s(%s) in %s: %s" % (e.kind, cls, short(fn), allowed.get(fn)),
+            detail="%s(%s) in %s: %s" % (e.kind, cls, short(fn), reason),
         )
     return n
 
